@@ -259,7 +259,8 @@ PROPS = {
         "rule": "malformed-first: for generated valid messages of each of 12 decoder entry points (SOCKS request/reply readers, HTTP "
                 "request/response head readers, RPFM from_buffer/read_head/stream reader, SOCKS-UDP header, h11c_connect reading a hostile "
                 "upstream reply incl. Session-Id, h11c_handshake, SOCKS connector negotiation, TargetAddress parser): every value of each of "
-                "the first bytes, truncation at every offset, random garbage/insert/delete; the (tag,len) grid of RPFM address attributes; "
+                "the first bytes, truncation at every offset, random garbage/insert/delete; the (tag,len) grid of RPFM address attributes; a grid of "
+                "header-line shapes (key x separator x value x line end) in request and response heads; "
                 "QUIC datagram sequences into Fragments<Frame>; and the stall matrix: real http / http+tls / socks / socks+tls / quic / reverse-udp "
                 "listeners in process, three clients stalled at each of 18 handshake stages (TCP accept only, partial / complete TLS ClientHello, "
                 "TLS done + partial request, QUIC Initial only (lossy forwarder), QUIC connection without stream, partial request on a stream, "
